@@ -110,6 +110,8 @@ func checkC07(w *World, r *Report) {
 	checkAddrCanon(w, r, tm)
 	checkCoinsCtor(w, r, tm)
 	checkNilInt(w, r, tm)
+	checkEveryAuction(w, r, tm, "BB-EVERY")
+	checkModuleIface(w, r, "MOD-IFACE", "BeginBlock")
 	checkNoMut(w, r, tm, "NO-MUT")
 	// a quantity rounded up, or a payment rounded down, makes a payment exceed its reservation: the refund is negative
 	// and constructing that coin panics inside block processing
